@@ -815,8 +815,8 @@ class Session:
                         return i
                 self._scan = len(self.rec.events)
                 left = end - time.monotonic()
-                if left <= 0:
-                    return None
+                if left <= 0 or self.thread_errors():
+                    return None  # (a library thread that died will not answer: the caller reports it)
                 self.rec.cond.wait(min(left, 1.0))
 
     def drain(self, cap=20.0, tries=3, sentinel_dir=""):
@@ -827,6 +827,8 @@ class Session:
         polling = self.cfg.get("observer") == "polling"
         ok = False
         for _ in range(tries):
+            if self.thread_errors():
+                break
             self.nsent += 1
             name = f"{SENT}{self.nsent}"
             p = os.path.join(self.root, name)
